@@ -28,8 +28,8 @@ import (
 	"github.com/bitcoin-sv/block-headers-service/repository"
 	"github.com/bitcoin-sv/block-headers-service/service"
 	"github.com/bitcoin-sv/block-headers-service/transports/http/endpoints"
-	peerpkg "github.com/bitcoin-sv/block-headers-service/transports/p2p/peer"
 	httpserver "github.com/bitcoin-sv/block-headers-service/transports/http/server"
+	peerpkg "github.com/bitcoin-sv/block-headers-service/transports/p2p/peer"
 	"github.com/bitcoin-sv/block-headers-service/verifharness/ev"
 	"github.com/bitcoin-sv/block-headers-service/verifharness/refmodel"
 	"github.com/gin-gonic/gin"
@@ -42,13 +42,14 @@ const AdminToken = "verif-admin-token-0123456789"
 
 // Options for building a stack.
 type Options struct {
-	Dir         string                                            // scratch dir for the SQLite file
-	Name        string                                            // db file name (default bhs.db)
-	Config      func(*config.AppConfig)                           // mutate the default config
-	WrapHeaders func(repository.Headers) repository.Headers       // decorator (fault injection, scheduler)
-	WrapRepos   func(*repository.Repositories)                    // general decoration
-	AfterSvc    func(*service.Services, *config.AppConfig)        // e.g. add notifier channels
-	EngineOpts  []func(*gin.Engine)                               // extra engine configuration (websocket)
+	Dir         string                                      // scratch dir for the SQLite file
+	Name        string                                      // db file name (default bhs.db)
+	Config      func(*config.AppConfig)                     // mutate the default config
+	WrapHeaders func(repository.Headers) repository.Headers // decorator (fault injection, scheduler)
+	WrapRepos   func(*repository.Repositories)              // general decoration
+	AfterSvc    func(*service.Services, *config.AppConfig)  // e.g. add notifier channels
+	EngineOpts  []func(*gin.Engine)                         // extra engine configuration (websocket)
+	DebugLog    bool                                        // logging.level = debug: the logger has level debug (output discarded) and gin runs in debug mode while the engine is built, as in a default deployment
 	NoHTTP      bool
 	Peers       map[*peerpkg.Peer]*peerpkg.SyncState // shared with the legacy p2p server (nil if none)
 }
@@ -100,6 +101,9 @@ func New(o Options) (*Stack, error) {
 		o.Name = "bhs.db"
 	}
 	s := &Stack{Opt: o, Path: filepath.Join(o.Dir, o.Name), Log: zerolog.Nop()}
+	if o.DebugLog {
+		s.Log = zerolog.New(io.Discard).Level(zerolog.DebugLevel)
+	}
 	if err := s.open(); err != nil {
 		return nil, err
 	}
@@ -140,6 +144,10 @@ func (s *Stack) open() error {
 		s.Opt.AfterSvc(s.Svc, cfg)
 	}
 	if !s.Opt.NoHTTP {
+		if s.Opt.DebugLog {
+			gin.SetMode(gin.DebugMode)
+			defer gin.SetMode(gin.ReleaseMode)
+		}
 		srv := httpserver.NewHTTPServer(cfg.HTTP, &s.Log)
 		srv.ApplyConfiguration(endpoints.SetupRoutes(s.Svc, cfg.HTTP))
 		for _, eo := range s.Opt.EngineOpts {
